@@ -16,10 +16,12 @@ import (
 	"encoding/hex"
 	"encoding/json"
 	"fmt"
+	"io"
 	"net/http"
 	"net/http/httptest"
 	"strings"
 	"testing"
+	"testing/iotest"
 
 	"github.com/brocaar/lorawan"
 	"github.com/brocaar/lorawan/backend/joinserver"
@@ -246,9 +248,16 @@ func newHandlerOpt(w *world, opt handlerOpt) http.Handler {
 	return h
 }
 
+// serve hands the request to the handler. The body of an HTTP request arrives as the network delivers it: every other
+// body (by its length) comes in pieces - a Read returns half of what was asked for - with the Content-Length announced.
 func serve(h http.Handler, body []byte) (int, []byte) {
 	rec := httptest.NewRecorder()
-	h.ServeHTTP(rec, httptest.NewRequest(http.MethodPost, "/", bytes.NewReader(body)))
+	req := httptest.NewRequest(http.MethodPost, "/", bytes.NewReader(body))
+	if len(body)%2 == 1 {
+		req.Body = io.NopCloser(iotest.HalfReader(bytes.NewReader(body)))
+		req.ContentLength = int64(len(body))
+	}
+	h.ServeHTTP(rec, req)
 	return rec.Code, rec.Body.Bytes()
 }
 
